@@ -104,7 +104,10 @@ def run_shard(ctx):
     n = 250 if ctx.tier == "quick" else 2500
     maxops = 25 if ctx.tier == "quick" else 60
     for i in range(n):
-        if i % 25 == 24:
+        if i % 5 == 3:
+            case = hh.gen_threshold_history(rnd)
+            ctx.count("threshold_histories")
+        elif i % 25 == 24:
             case = hh.gen_bulk_history(rnd, ctx.tier)
             case["observe_p"] = 0.2
             ctx.count("bulk_histories")
